@@ -209,6 +209,25 @@ CLAIMED = {
    note='Trusted: Coq kernel+VM; stub lexer (SourceSymbol trees are inputs); interpreter-level determinism is tested, not proved; the '
         'order of unrelated declarations is the order of the C source and is not varied.',
    ref='DESIGN.md §4 C16'),
+ 'C12': dict(
+   technique='Coq proof over a model of the runtime-dump merge (flag bits, nearest known parent, symbol prefix, signal parameters, type-structure links, virtual methods, get-type removal) + in-Coq correspondence through the real GDumpParser and passes',
+   text='Theorems (Coq, axiom-free): the four property booleans are exactly the four low bits of any flags word (C12_property_flags); '
+        'the parent is the first ancestor of the reported chain that is known, all earlier ones being unknown (C12_nearest_known_parent, '
+        'induction over the chain); classes keep the reported type name, get-type function, abstract/final and the number of '
+        'properties, signals and interfaces (C12_class_facts); the symbol prefix is the get-type function without namespace prefix and '
+        '_get_type/_get_gtype suffix for every prefix (C12_symbol_prefix); every reported property keeps its flags, type and default, '
+        'every signal its flags, return and parameter types with parameters named object, p0, p1, ... (C12_properties_complete, '
+        'C12_signals_complete, C12_signal_param_names); class/interface structures and their types point at each other '
+        '(C12_type_struct_link, C12_type_struct_names); exactly the function-pointer members whose first parameter is the instance '
+        'become virtual methods (C12_virtual_methods); get-type functions and nothing else leave the function list '
+        '(C12_get_type_functions_removed). Tie: generated worlds (classes with instance/class structures, interfaces, boxed types, '
+        'hidden ancestors, properties over all flag bytes, signals) and their dump XML go through the real GDumpParser, '
+        'MainTransformer, IntrospectablePass and GIRWriter; every class, interface, structure and the function list are compared with '
+        'Model.C12 inside Coq, and flag bits and parent choice are also judged directly.',
+   note='Trusted: Coq kernel+VM; gen_c02.py (type table); stub lexer; the dump is given as XML (girepository/gdump.c and the '
+        'introspection binary are not exercised: stated partial). Not generated: enumerations/flags of the dump, error quarks, '
+        'pointer and fundamental types, unknown interface names (two unresolved interface types make the writer\'s sort raise).',
+   ref='DESIGN.md §4 C12'),
 }
 
 PLANNED = {}
